@@ -4,6 +4,7 @@
 use crate::rt::{Outcome, RunCfg};
 
 pub mod c02;
+pub mod c05;
 
 pub struct PropInfo {
     pub quick_runs: u64,
@@ -17,6 +18,7 @@ pub struct PropInfo {
 pub fn info(prop: &str) -> Option<PropInfo> {
     match prop {
         "C02" => Some(c02::INFO),
+        "C05" => Some(c05::INFO),
         _ => None,
     }
 }
@@ -24,8 +26,9 @@ pub fn info(prop: &str) -> Option<PropInfo> {
 pub fn run(prop: &str, cfg: &RunCfg, direct: Option<&serde_json::Value>) -> Outcome {
     match prop {
         "C02" => c02::run(cfg, direct),
+        "C05" => c05::run(cfg, direct),
         _ => panic!("unknown property {prop}"),
     }
 }
 
-pub const ALL: &[&str] = &["C02"];
+pub const ALL: &[&str] = &["C02", "C05"];
